@@ -206,6 +206,9 @@ sys.exit(1 if bad else 0)
 
 
 def replay(ob):
+    if "a_variable_used_twice_binds_one_value_in_every_commuted_variant" in ob["name"] or "a_value_pattern_used_twice" in ob["name"] or "clone.keeps_check_and_optionality" in ob["name"]:
+        from contracts import c06_state
+        return c06_state.ANON_TWICE
     if ob["name"].startswith("C06.pattern.match.") or ob["name"].startswith("Pattern.match.loop"):
         return CHECKS_SEARCH
     if ".any_depth." in ob["name"] or (".loop" in ob["name"] and ob["name"].startswith("MatchResult.")):
